@@ -336,6 +336,11 @@ class ThreadingApplication(Application):
                     f"{self} failed to spawn a thread for calling "
                     f"`handle_request`: {e}, discarded message "
                     f"{hex(recv_message.header.hop_by_hop_identifier)}")
+                # give back the thread slot taken for this request
+                try:
+                    self._thread_slots.get(block=False)
+                except queue.Empty:
+                    pass
 
     def _wait_for_resp_msg(self, _thread):
         while True:
